@@ -222,6 +222,9 @@ func (e *c02env) judgeGenuine(d *abs.Msg, err error, ev []mon.Event) {
 func c02Cell(k *core.Case, ci int, exhaustive bool) {
 	s, init, pre := cell(ci)
 	raw := libsa.RandomRaw(k.R, s)
+	if k.Index%2 == 0 {
+		raw = libsa.DerivedRaw(k.R, s) // keys the library derives itself
+	}
 	ks, err := libsa.NewKey(raw)
 	if err != nil {
 		k.Violate("setup", "NewKey failed", err.Error(), nil)
@@ -474,10 +477,19 @@ func c02Cell(k *core.Case, ci int, exhaustive bool) {
 		e.judge(pp, "short-sk-body", "SK-generic-header")
 	}
 	// cross-key: unrelated key set of the same suite; and the key set with directions swapped
-	for i := 0; i < 3; i++ {
+	for i := 0; i < 4; i++ {
 		other := libsa.RandomRaw(k.R, s)
+		if i == 3 {
+			if raw.In == nil {
+				continue
+			}
+			// the receiver's record was keyed for THIS SA before and has since been keyed for another one (recycled)
+			other = libsa.RecycledFrom(k.R, raw)
+			k.Count("cross_key_object_recycled_from_the_genuine_sa", 1)
+		}
 		if i == 2 {
 			other = raw
+			other.In = nil // edited by hand below: installed directly
 			other.K.Ai, other.K.Ar = raw.K.Ar, raw.K.Ai
 			other.K.Ei, other.K.Er = raw.K.Er, raw.K.Ei
 		}
@@ -535,7 +547,7 @@ func c02(c *core.Ctx) {
 	c.Info("assumptions", "acceptance with HMAC-collision probability (<= 2^-96) is treated as never || spies wrap the exported interface-typed fields Encr_i/Encr_r/Integ_i/Integ_r")
 	c.Family("cells-exhaustive", c.N(36*6, 36*2000), func(k *core.Case) { c02Cell(k, k.Index%36, true) })
 	c.Family("cells-sampled", c.N(36*12, 36*6000), func(k *core.Case) { c02Cell(k, k.Index%36, false) })
-	req := []string{"reframed_sk_payloads", "forgeries_with_the_genuine_messages_weak_fingerprint", "genuine_with_searched_crypto_values", "tampered_presented_with_a_held_header_object", "transport_framings_tried", "rejected_insertion", "genuine_accepted", "exhaustive_bitflip_messages", "rejected_cross-key", "rejected_reflection", "handled_as_unprotected", "rejected_short-sk-body"}
+	req := []string{"cross_key_object_recycled_from_the_genuine_sa", "reframed_sk_payloads", "forgeries_with_the_genuine_messages_weak_fingerprint", "genuine_with_searched_crypto_values", "tampered_presented_with_a_held_header_object", "transport_framings_tried", "rejected_insertion", "genuine_accepted", "exhaustive_bitflip_messages", "rejected_cross-key", "rejected_reflection", "handled_as_unprotected", "rejected_short-sk-body"}
 	for _, pc := range allPosClasses {
 		req = append(req, "pos_"+pc)
 	}
